@@ -190,6 +190,8 @@ class Tr:
                 return f"(ANum.le {rs} {ls})"
             if isinstance(op, ast.Gt):
                 return f"(ANum.lt {rs} {ls})"
+        if isinstance(e, ast.Name) and self.env.get(e.id) == "num":
+            return f"(!(ANum.eq {e.id} (ANum.ofNat 0)))"  # Python truthiness of a number
         raise TranslateError(f"{self.fname}: unsupported condition {ast.unparse(e)}")
 
     # ---------------------------------------------------------------- statements
@@ -213,6 +215,21 @@ class Tr:
             v, k = self.expr(s.value)
             self.env[s.targets[0].id] = k
             return pad + f"let {s.targets[0].id} := {v}\n" + self.block(rest, ind, ret_kind)
+        if isinstance(s, ast.If) and isinstance(s.test, ast.Name) and self.env.get(s.test.id) in ("optnum", "optnumlist"):
+            # Python truthiness of an optional: present AND non-zero (number) / non-empty (list)
+            nm = s.test.id
+            inner = self.env[nm][3:]
+            saved = dict(self.env)
+            self.env = dict(saved, **{nm: inner})
+            truthy = f"(!(ANum.eq {nm}_val (ANum.ofNat 0)))" if inner == "num" else f"(!{nm}_val.isEmpty)"
+            body = self.block(s.body, ind + 3, ret_kind)
+            self.env = dict(saved)
+            els_in = self.block(s.orelse if s.orelse else rest, ind + 3, ret_kind)
+            self.env = dict(saved)
+            els = self.block(s.orelse if s.orelse else rest, ind + 1, ret_kind)
+            p3 = "  " * (ind + 3)
+            return pad + (f"match {nm} with\n{pad}| some {nm}_val =>\n{pad}    if {truthy} then\n{p3}let {nm} := {nm}_val\n{body}\n"
+                          f"{pad}    else\n{els_in}\n{pad}| none =>\n{els}")
         if isinstance(s, ast.If):
             c = self.cond(s.test)
             # inside an `x is not None` branch the optional is known to be present: rebind it to its value
@@ -273,13 +290,20 @@ def generate() -> tuple[str, list[str]]:
             parts.append(translate_function(name))
         except TranslateError as e:
             errors.append(str(e))
-            parts.append(f"-- TRANSLATION FAILED for {name}: {e}\n")
+            # keep the library and the driver buildable: an untranslatable function becomes a stub that always "raises";
+            # every theorem about it and every differential comparison through it then fails for that function only
+            _, kinds, ret = SPEC[name]
+            sig = " ".join(f"(a{i} : {LEAN_TYPE[k]})" for i, k in enumerate(kinds))
+            parts.append(f"-- TRANSLATION FAILED for {name}: {e}\ndef {name} {sig} : Option ({LEAN_TYPE[ret]}) :=\n  none\n")
     parts.append("end SplinkVerif.Gen\n")
     return "\n".join(parts), errors
 
 
-def write() -> list[str]:
+def write(relevant=None) -> list[str]:
+    """(Re)writes Generated/Arith.lean; returns the translation errors (those of the functions in `relevant`, if given)."""
     src, errors = generate()
+    if relevant is not None:
+        errors = [e for e in errors if e.split(":")[0] in relevant]
     out = Path(__file__).resolve().parents[2] / "lean" / "SplinkVerif" / "Generated" / "Arith.lean"
     if not out.exists() or out.read_text() != src:
         out.write_text(src)
